@@ -159,7 +159,7 @@ class Ctx:
         self.pid, self.tier, self.seed = pid, tier, seed
         self.t0 = time.time()
         self.rng = random.Random(seed * 1000003 + int(hashlib.sha256(pid.encode()).hexdigest()[:8], 16))
-        self.scratch = os.path.join(BUILD, "scratch", pid)
+        self.scratch = os.path.join(BUILD, "scratch", "%s_%d" % (pid, os.getpid()))   # per process: concurrent runs do not collide
         shutil.rmtree(self.scratch, ignore_errors=True)
         os.makedirs(self.scratch, exist_ok=True)
         os.makedirs(os.path.join(BUILD, "replay"), exist_ok=True)
@@ -339,6 +339,8 @@ class Ctx:
         os.makedirs(EVID, exist_ok=True)
         with open(os.path.join(EVID, self.pid + ".json"), "w") as f:
             json.dump(ev, f, indent=1, default=str)
+        if not self.violations:
+            shutil.rmtree(self.scratch, ignore_errors=True)
         for k in self.known_hits:
             print("KNOWN-FINDING: property=%s %s" % (self.pid, k["what"]))
         for v in self.violations:
